@@ -353,7 +353,7 @@ def Ctx.getSub (c : Ctx) (t : Topic) (a : Actor) : Ctx :=
     let online := (t.pud s.user).online > 0 ∧ presencer
     let (r, v) := if reader ∧ !banned then (s.readId, s.recvId) else (0, 0)
     let acs := if sharer ∨ s.user = a.uid ∨ isAdmin sm then s!"{showMode s.want}/{showMode s.given}/{showMode sm}" else "_/_/_"
-    let priv := if s.user = a.uid then (match s.priv with | some p => s!":priv={p}" | none => "") else ""
+    let priv := if s.user = a.uid then (match s.priv with | some p => s!":priv={showTok (some p)}" | none => "") else ""
     s!"{s.user}:{acs}:r{r}:v{v}:d{del}{if online then ":on" else ""}{priv}")
   c.emit a.sid s!"meta {tn} sub[{" ".intercalate (entries.mergeSort (· ≤ ·))}]"
 
@@ -433,8 +433,23 @@ def Ctx.getSubOffline (c : Ctx) (a : Actor) (tn : TName) : Ctx :=
     if s.deleted then c.emit a.sid s!"meta {tn} sub[-:_/_/_:r0:v0:d0:deleted]" else
     let sm := s.want &&& s.given
     let (r, v, d) := if isReader sm ∧ isJoiner sm then (s.readId, s.recvId, s.delId) else (0, 0, 0)
-    let priv := match s.priv with | some p => s!":priv={p}" | none => ""
+    let priv := match s.priv with | some p => s!":priv={showTok (some p)}" | none => ""
     c.emit a.sid s!"meta {tn} sub[{s.user}:{acsStr s.want s.given}:r{r}:v{v}:d{d}{priv}]"
+
+/-- mergeInterfaces on tokens -/
+def mergeTok (dst : Tok) (src : PrivArg) : Tok × Bool :=
+  match src with
+  | .absent => (dst, false)
+  | .null => (none, dst.isSome)
+  | .val s =>
+    if !isMapTok s then (some s, true) else
+    -- mergeMaps: the keys of the update are set in (a copy of) the map which is there - `null` removes a key -; nothing to merge,
+    -- nothing changes; a value which is not a map is replaced by the update
+    let src := mapPairs s
+    if src.isEmpty then (dst, false) else
+    let old : List (String × String) := match dst with | some d => if isMapTok d then mapPairs d else [] | none => []
+    let merged := src.foldl (fun acc (k, v) => if v = "null" then acc.filter (·.1 ≠ k) else (acc.filter (·.1 ≠ k)) ++ [(k, v)]) old
+    (some (mapCanon merged), true)
 
 /-- replyOfflineTopicSetSub (hub.go:773-865): writes the subscription row directly; a loaded topic's cache is NOT updated -/
 def Ctx.setSubOffline (c : Ctx) (a : Actor) (tn : TName) (target : Uid) (mode : String) (priv : PrivArg) : Ctx :=
@@ -445,7 +460,11 @@ def Ctx.setSubOffline (c : Ctx) (a : Actor) (tn : TName) (target : Uid) (mode : 
   | none => c.emit a.sid (ctrl 500 tn)
   | some none => c.emit a.sid (ctrl 404 tn)
   | some (some s) =>
-    let privUpd : Option Tok := match priv with | .absent => none | .null => some (some "␡") | .val p => some (some p)
+    -- (a map is merged into the stored one, and written only if that changes something; anything else is stored as it comes)
+    let privUpd : Option Tok := match priv with
+      | .absent => none
+      | .null => some (some "␡")
+      | .val p => if isMapTok p then (let (np, ch) := mergeTok s.priv (.val p); if ch then some np else none) else some (some p)
     let r : Except Nat (Option Mode) :=
       if mode = "" then .ok none else
       match unmarshal 0 mode.toList with
@@ -505,13 +524,6 @@ structure SetDescOpts where
   anon : String := ""
   pub : PrivArg := .absent
   priv : PrivArg := .absent
-
-/-- mergeInterfaces on tokens -/
-def mergeTok (dst : Tok) (src : PrivArg) : Tok × Bool :=
-  match src with
-  | .absent => (dst, false)
-  | .null => (none, dst.isSome)
-  | .val s => (some s, true)
 
 def Ctx.opSetDesc (c : Ctx) (a : Actor) (tn : TName) (o : SetDescOpts) : Ctx :=
   if !c.w.attached a.sid tn then c.setSubOffline a tn "" "" o.priv else
